@@ -289,6 +289,32 @@ def c01(tier, replay=None):
         tq = body.replace("'", "x")
         big.append(("triple-quoted string of %d characters" % n, "#\\#CIF_2.0\ndata_b\n_before 'first value'\n_big \'\'\'" + tq + "\'\'\'\n_after 'last value'\n",
                     {"b": {"items": {"_before": {"k": "char", "t": "first value", "q": 1}, "_big": {"k": "char", "t": tq, "q": 1}, "_after": {"k": "char", "t": "last value", "q": 1}}, "loops": [], "frames": {}}}))
+    # CR LF documents in which a CR is the last byte of a 4096-byte read and its LF the first of the next, inside a text
+    # field, inside a triple-quoted string and just before a text field's closing semicolon: one line terminator each
+    def split_pairs(head, opener, bounds):
+        """lines whose terminating CR is byte B-1 of the CR LF rendering, for each B of bounds"""
+        lines, off = [], len(head.replace("\n", "\r\n")) + len(opener)
+        for B in bounds:
+            while B - 1 - off > 130:
+                lines.append(("l%05d " % len(lines) + "abcdefghijklmnopqrstuvwxyz" * 3)[:60]); off += 62
+            ln = B - 1 - off
+            if ln < 0:
+                raise Infra("split_pairs: boundary %d cannot be reached" % B)
+            lines.append(("e%05d " % len(lines) + "abcdefghijklmnopqrstuvwxyz" * 6)[:ln] if ln > 7 else "z" * ln); off += ln + 2
+        return lines
+    items = lambda v: {"b": {"items": {"_before": {"k": "char", "t": "first value", "q": 1}, "_big": {"k": "char", "t": v, "q": 1}, "_after": {"k": "char", "t": "last value", "q": 1}}, "loops": [], "frames": {}}}
+    for dialect, magic in ((2, "#\\#CIF_2.0\n"), (1, "#\\#CIF_1.1\n")):
+        head = magic + "data_b\n_before 'first value'\n_big\n"
+        for at_closer in (False, True):
+            # without the tail line the pair at the last boundary is the terminator in front of the closing semicolon
+            value = "\n".join(split_pairs(head, ";", (4096, 8192, 12288)) + ([] if at_closer else ["tail"]))
+            doc = (head + ";" + value + "\n;\n_after 'last value'\n").replace("\n", "\r\n")
+            if doc[4095:4097] != "\r\n" or doc[12287:12289] != "\r\n":
+                raise Infra("split_pairs: pair not on the boundary")
+            big.append(("CR LF pairs split across reads in a text field%s, CIF %d" % (", the last one before the closing semicolon" if at_closer else "", dialect), doc, items(value)))
+    head = "#\\#CIF_2.0\ndata_b\n_before 'first value'\n_big "
+    value = "\n".join(split_pairs(head, "\'\'\'", (4096, 8192, 12288)) + ["tail"])
+    big.append(("CR LF pairs split across reads in a triple-quoted string", (head + "\'\'\'" + value + "\'\'\'\n_after 'last value'\n").replace("\n", "\r\n"), items(value)))
     npk = 3000 if tier == "quick" else 40000
     big.append(("loop of %d packets" % npk, "#\\#CIF_2.0\ndata_b\nloop_ _i _v\n" + "".join("%d 'v%d'\n" % (i, i) for i in range(npk)),
                 {"b": {"items": {}, "loops": [{"names": ["_i", "_v"], "packets": sorted(json.dumps({"_i": {"k": "char", "t": str(i), "q": 0}, "_v": {"k": "char", "t": "v%d" % i, "q": 1}}, sort_keys=True) for i in range(npk))}], "frames": {}}}))
